@@ -16,6 +16,7 @@ var checks = map[string][]HarnessSpec{
 	"C04": {
 		{Name: "verifC04Rules", Pkg: ".", Labels: []string{"ran"}},
 		{Name: "verifC04RetryRules", Pkg: ".", Labels: []string{"retry-ran"}},
+		{Name: "verifC04AlertConsistency", Pkg: ".", Labels: []string{"ok", "refused"}},
 	},
 	"C05": {
 		{Name: "verifC05Raw", Pkg: ".", Labels: []string{"passed", "refused"}},
